@@ -244,6 +244,38 @@ def state_key(st):
     return hashlib.sha1(txt.encode()).hexdigest()
 
 
+class _RecOutput(object):
+    """Records what is written to an output group (nested groups flattened by name)."""
+
+    def __init__(self):
+        self.items = {}
+        self.groups = []
+
+    def create_group(self, name):
+        g = _RecOutput()
+        self.groups.append(g)
+        return g
+
+    def write_array(self, name, value, metadata=None):
+        self.items[name] = np.array(value)
+
+    write_list = write_array
+
+    def write_scalar(self, name, value, metadata=None):
+        self.items[name] = value
+
+    write_string = write_scalar
+
+    def write_string_array(self, name, value, metadata=None):
+        self.items[name] = list(value)
+
+    def flat(self):
+        out = dict(self.items)
+        for g in self.groups:
+            out.update(g.flat())
+        return out
+
+
 def real_views(opt):
     from taurex.core.priors import PriorMode
     b = []
@@ -615,6 +647,27 @@ def hist_fn(case):
         r.check(n.startswith('log_') == got['prior_log'][i], 'consistency',
                 'consistency/name-prefix-vs-reported-prior/%s' % tag, name=n, prior=got['priors'][i])
     check_views(r, got, want, s, tag, 'compiled-view')
+    # what the optimiser writes about itself into an output file (both writers) is the same set-up: the same names in
+    # the same order, the boundaries of the same priors
+    for writer in ('write_optimizer', 'write_fit'):
+        rec = _RecOutput()
+        try:
+            getattr(w[2], writer)(rec)
+        except Exception as e:
+            r.check(False, 'consistency', 'written/%s-raised/%s' % (writer, type(e).__name__), exc=repr(e))
+            continue
+        flat = rec.flat()
+        wn_ = [str(x) for x in flat.get('fit_parameter_names', [])]
+        r.check(wn_ == list(got['names']), 'consistency', 'written/%s/names' % writer, written=wn_, reported=got['names'])
+        lo_, hi_ = flat.get('fit_boundary_low'), flat.get('fit_boundary_high')
+        if r.check(lo_ is not None and hi_ is not None and len(lo_) == len(got['bounds']) == len(hi_), 'consistency',
+                   'written/%s/boundary-count' % writer):
+            for i, (a_, b_) in enumerate(zip(lo_, hi_)):
+                wb = (min(float(a_), float(b_)), max(float(a_), float(b_)))
+                src, agree = space_class(s.p[strip(got['names'][i])], got['prior_log'][i])
+                r.check(feq(wb[0], got['bounds'][i][0]) and feq(wb[1], got['bounds'][i][1]), 'consistency',
+                        'written/%s/boundaries/%s/%s' % (writer, src, agree), name=got['names'][i], written=wb,
+                        reported=got['bounds'][i], prior=got['priors'][i])
     # differential: fresh objects, net settings applied once
     try:
         w2 = configure_fresh(s, initial)
@@ -733,6 +786,61 @@ def partial_fn(case):
 
 
 # ----------------------------------------------------------------------------------------------
+# a user-supplied prior class with its own value map (priors are an extension point): the vector written to the model
+# goes through the prior's own prior() - whatever the map is - for exactly the fitted parameters
+# ----------------------------------------------------------------------------------------------
+def custom_prior_fn(case):
+    from taurex.core.priors import Uniform, LogUniform
+    r = core.R(case)
+    tm, obs, opt = world()
+
+    class Folded(Uniform):
+        """linear space; values outside the bounds are folded back into them"""
+        def prior(self, value):
+            lo, hi = self.boundaries()
+            return min(max(value, lo), hi)
+
+    class Shifted(LogUniform):
+        """log space with an offset of half a decade"""
+        def prior(self, value):
+            return 10 ** (value + 0.5)
+
+    kinds = {'folded': (Folded, [500.0, 2500.0], lambda v: min(max(v, 500.0), 2500.0)),
+             'shifted': (Shifted, [-6.0, -2.0], lambda v: 10 ** (v + 0.5))}
+    before = dict((k, v[2]()) for k, v in list(tm.fittingParameters.items()) + list(obs.fittingParameters.items()))
+    plan = case['plan']            # [(parameter, kind)]
+    for name, _ in plan:
+        opt.enable_fit(name)
+    for name in list(tm.fittingParameters):
+        if name not in [p_ for p_, _ in plan] and tm.fittingParameters[name][5]:
+            opt.disable_fit(name)
+    maps = {}
+    for name, kind in plan:
+        cls, b, fn_ = kinds[kind]
+        opt.set_prior(name, cls(bounds=b))
+        maps[name] = fn_
+    opt.compile_params()
+    names = [strip(n) for n in opt.fit_names]
+    if not r.check(sorted(names) == sorted(maps), 'compiled-view', 'custom-prior/fitted-set', got=names):
+        return r
+    for vec_letter in case['vecs']:
+        vec = [{'in': 1200.0, 'below': 100.0, 'above': 9000.0}[vec_letter] if maps[n] is kinds['folded'][2]
+               else {'in': -4.0, 'below': -7.5, 'above': -1.0}[vec_letter] for n in names]
+        opt.update_model(list(vec))
+        for n, v in zip(names, vec):
+            holder = tm.fittingParameters if n in tm.fittingParameters else obs.fittingParameters
+            r.check(feq(holder[n][2](), maps[n](v)), 'update-writes-prior-transformed', 'custom-prior/value/%s' % vec_letter,
+                    param=n, written=v, got=holder[n][2](), want=maps[n](v))
+        for n, v0 in before.items():
+            if n not in names:
+                holder = tm.fittingParameters if n in tm.fittingParameters else obs.fittingParameters
+                r.check(holder[n][2]() == v0, 'update-touches-only-fitted', 'custom-prior/unfitted-changed', param=n)
+    r.observe([(n, maps[n](1.0) if False else 0) for n in names])
+    r.nontrivial = True
+    return r
+
+
+# ----------------------------------------------------------------------------------------------
 # alphabets and exploration
 # ----------------------------------------------------------------------------------------------
 def alphabet(params, derived, priors=('U', 'LU', 'G'), errors='few', updates=('v1', 'v2'), spelled=False):
@@ -788,6 +896,10 @@ def explore(ctx):
     pc = [{'obs': ob, 'hist': [list(o_) for o_ in h]} for ob in ('derived-only', 'fit-only', 'plain', 'both')
           for k_ in range(0, 3 if quick else 4) for h in itertools.product(PARTIAL_OPS, repeat=k_)]
     ctx.run_cases('partial_fn', pc, phase='partial-observation')
+    cp = [{'plan': pl, 'vecs': list(vs)} for pl in ([['T', 'folded']], [['H2O', 'shifted']], [['T', 'folded'], ['H2O', 'shifted']],
+                                                       [['planet_radius', 'shifted'], ['T', 'folded']])
+          for vs in itertools.permutations(['in', 'below', 'above'], 2)]
+    ctx.run_cases('custom_prior_fn', cp, phase='custom-prior')
     # writes from outside the optimiser interleaved with (repeated, identical) update_model vectors
     ext = [['enable_fit', 'T'], ['compile_params'], ['update_model', 'v1'], ['update_model', 'v2'],
            ['external_set', 'planet_radius', 'x1'], ['external_set', 'T', 'x1'], ['external_set', 'T', 'x2']]
